@@ -43,6 +43,7 @@ func docCase(c Case, e *env) (*docGen, string, string) {
 		g.tightInline = true
 	}
 	g.literalWords = e.prop == "C03"
+	trackLitWords = g.literalWords
 	g.listMarkupText = e.prop == "C07"
 	g.blanksBetween = e.prop == "C03" || e.prop == "C02" || e.prop == "C09"
 	g.wrapIn = c.str("wrap", "")
